@@ -169,6 +169,23 @@ pub fn judge_tree(ctx: &mut Ctx, e: &Expr, leaves: &[Operand]) {
                         ctx.violation(&format!("reparse-differs/{}", shape), w.clone(), format!("intermediate {} = {:?} re-parses to different bounds at {}", t, printed, v.text()));
                         return;
                     }
+                    // the other text entry points must read the printed result the same way
+                    match guarded(|| (printed.parse::<Range>(), serde_json::from_str::<Range>(&serde_json::to_string(&printed).unwrap()))) {
+                        Ok((Ok(x), Ok(y))) => {
+                            if x != back || y != back {
+                                ctx.violation(&format!("reparse-entry-points-differ/{}", if x != back { "from_str" } else { "serde" }), w.clone(), format!("intermediate {} = {:?}: Range::parse, str::parse and serde do not read it alike", t, printed));
+                                return;
+                            }
+                        }
+                        Ok((x, y)) => {
+                            ctx.violation(&format!("reparse-fails/{}", if x.is_err() { "from_str" } else { "serde" }), w.clone(), format!("intermediate {} = {:?} is accepted by Range::parse but not by {}", t, printed, if x.is_err() { "str::parse::<Range>()" } else { "serde" }));
+                            return;
+                        }
+                        Err(p) => {
+                            ctx.violation(&format!("panic/{}", p.site), w.clone(), p.message);
+                            return;
+                        }
+                    }
                     // accepted as an operand again
                     if guarded(|| (back.intersect(r).is_some(), back.difference(r).is_none(), back.allows_any(r))).is_err() {
                         ctx.violation(&format!("reparsed-operand-panics/{}", shape), w.clone(), format!("operations on re-parsed {:?} panic", printed));
@@ -370,9 +387,16 @@ pub fn run(ctx: &mut Ctx) {
         }
         let mut r = Rng::for_case(ctx.seed, "C15-R", i);
         let nl = 2 + r.below(3);
-        let mut leaves = vec![];
+        let mut leaves: Vec<Operand> = vec![];
         for _ in 0..nl {
-            let op = if r.chance(3, 4) { rand_operand(&mut r, &tiv) } else { rand_free_operand(&mut r) };
+            let op = if !leaves.is_empty() && r.chance(1, 4) {
+                let base = leaves[r.below(leaves.len())].clone();
+                neighbour_operand(&mut r, &base)
+            } else if r.chance(3, 4) {
+                rand_operand(&mut r, &tiv)
+            } else {
+                rand_free_operand(&mut r)
+            };
             if let Some(op) = op {
                 leaves.push(op);
             }
